@@ -2,7 +2,7 @@
    [js_valid] is the definition of conformance for the JSON-Schema fragment of the quantifier (cross-checked against the
    jsonschema package on every case); pydantic's per-argument verdicts are oracle data. *)
 From Coq Require Import ZArith List String Ascii Bool.
-From PJ Require Import Base.Json Base.Res Model.Bind Model.Validators Lemmas.BindL Lemmas.ValidatorsL.
+From PJ Require Import Base.Json Base.Res Model.Bind Model.Validators Lemmas.BindL Lemmas.ValidatorsL Lemmas.ExcludeL.
 Import ListNotations.
 Open Scope string_scope. Open Scope list_scope.
 
@@ -59,6 +59,60 @@ Theorem C14_typed_rejects : forall s cm ctx o coerce p kw,
 Proof. exact invoke_pyd_rejects. Qed.
 Theorem C14_rejected_argument : forall o kw n v, In (n, v) kw -> (get n o = None \/ get n o = Some None) -> apply_verdicts o kw = None.
 Proof. exact apply_verdicts_reject. Qed.
+
+(* the exclusion predicate (exclude_param=...): the selected parameters are removed from what is bound and validated under every
+   validator; without a predicate nothing changes *)
+Theorem C14_no_predicate : forall s cm ctx p sc o coerce,
+  invoke_base_x s cm [] ctx p = method_invoke s cm ctx p
+  /\ invoke_js_x s cm [] ctx sc p = invoke_js s cm ctx sc p
+  /\ invoke_pyd_x s cm [] ctx o coerce p = invoke_pyd s cm ctx o coerce p.
+Proof. exact invoke_x_nil. Qed.
+Theorem C14_predicate_schema_spec : forall s cm xs ctx sc p,
+  invoke_js_x s cm xs ctx sc p =
+  match validate_bind (excluded_sig_x s cm xs) p with
+  | Some kw => if js_valid sc (JObj kw) then invoke_base_x s cm xs ctx p else InvInvalid
+  | None => InvInvalid end.
+Proof. exact invoke_js_x_spec. Qed.
+Theorem C14_predicate_typed_spec : forall s cm xs ctx o coerce p,
+  invoke_pyd_x s cm xs ctx o coerce p =
+  match validate_bind (excluded_sig_x s cm xs) p with
+  | Some kw => match apply_verdicts o kw with
+               | Some kw' => if coerce then call_with s cm ctx kw' else invoke_base_x s cm xs ctx p
+               | None => InvInvalid end
+  | None => InvInvalid end.
+Proof. exact invoke_pyd_x_spec. Qed.
+(* excluded parameters are never validated ... *)
+Theorem C14_predicate_not_validated : forall s cm xs p kw, simple_sig s = true -> names_distinct s = true -> params_wf p ->
+  validate_bind (excluded_sig_x s cm xs) p = Some kw -> forall n, In n xs -> ~ In n (keys kw).
+Proof. exact excluded_not_validated. Qed.
+(* ... never settable by the client: naming one is -32602 under every validator and the body does not run ... *)
+Theorem C14_predicate_not_settable : forall s cm xs ctx d n sc o coerce,
+  simple_sig s = true -> names_distinct s = true -> In n xs -> In n (keys d) ->
+  invoke_base_x s cm xs ctx (PKw d) = InvInvalid
+  /\ invoke_js_x s cm xs ctx sc (PKw d) = InvInvalid
+  /\ invoke_pyd_x s cm xs ctx o coerce (PKw d) = InvInvalid.
+Proof. exact excluded_not_settable. Qed.
+(* ... and (no context parameter) the call is a direct call of the function the client sees, the excluded parameters taking
+   their own defaults whatever the client sent *)
+Theorem C14_predicate_direct_call : forall s xs ctx p,
+  simple_sig s = true -> names_distinct s = true -> params_wf p ->
+  (forall q, In q s -> In (pname q) xs -> pdef q = true) ->
+  invoke_base_x s CtxNone xs ctx p =
+  match py_call (sig_exclude_all xs s) (fst (split_params p)) (snd (split_params p)) with
+  | Some e' => InvRan (widen s e') | None => InvInvalid end.
+Proof. exact invoke_base_x_direct. Qed.
+Theorem C14_predicate_default : forall s xs ctx p e n,
+  simple_sig s = true -> names_distinct s = true -> params_wf p ->
+  (forall q, In q s -> In (pname q) xs -> pdef q = true) ->
+  invoke_base_x s CtxNone xs ctx p = InvRan e -> In n xs -> In n (names s) -> get n e = Some Default.
+Proof. exact excluded_takes_default. Qed.
+
+Example C14_ex_predicate :
+  let s := [{| pname := "a"; pk := PK; pdef := false |}; {| pname := "db"; pk := PK; pdef := true |}; {| pname := "b"; pk := PK; pdef := true |}] in
+  invoke_base_x s CtxNone ["db"] JNull (PPos [JInt 1; JInt 2]) = InvRan [("a", Given (JInt 1)); ("db", Default); ("b", Given (JInt 2))]
+  /\ invoke_base_x s CtxNone ["db"] JNull (PKw [("a", JInt 1); ("db", JInt 9)]) = InvInvalid
+  /\ invoke_base_x s CtxNone ["db"] JNull (PPos [JInt 1; JInt 2; JInt 3]) = InvInvalid.
+Proof. vm_compute. repeat split; reflexivity. Qed.
 
 Example C14_ex :
   let sc := SNode (Some TObject) None None None [("n", SNode (Some TInteger) None (Some 0%Z) None [] [] true None)] ["n"] false None in
